@@ -97,6 +97,6 @@ theorem closure_charges_creator_vm (fuel : Nat) (ps : List Op) (body : Op) (vmOl
     (k : List Frame) (w : World) (kvs : List (Val × Val)) (vm : VM)
     (hb : bindParams ps args [] = some kvs) (hv : w.vm? vmOld = some vm) :
     (callVal (fuel + 1) (.closure ps body vmOld) args k w).ctl = .ev body vmOld := by
-  simp [callVal, hb, hv]
+  simp [callVal, callClosure, hb, hv]
 
 end SqProps.C11
